@@ -13,7 +13,7 @@ open Dcg.Model.Write Dcg.Proofs.Write Dcg.Gen.GenerateSteps
 
 /-- In the extracted step sequence every step that may raise — loading, parser construction,
 `parser.parse()`, the checks that `raise Error` (no models, modular result into a file or
-without a directory), the header file read — precedes the first `mkdir` / `open`: nothing before
+without a directory), the header file read, the encode check of every module's text — precedes the first `mkdir` / `open`: nothing before
 the write loop touches the file system, nothing in or after it may raise. -/
 theorem raises_before_first_write : raisesBeforeWrites pre loopBody post = true := by decide
 
@@ -26,39 +26,38 @@ theorem pipeline_steps_present :
     loopBody.any (fun s => s.kind == .openW) = true ∧ loopBody.any (fun s => s.kind == .mkdir) = true := by
   decide
 
-/-- FULL STRENGTH (FALSE on the pinned tree, see `encode_error_truncates`): whatever fails, no file changed. -/
-def FailedRunFsUnchanged : Prop :=
-  ∀ (env : Env) (f : Faults) (st st' : St),
-    run env f pre loopBody post st = .failed st' → st'.files = st.files
+/-- Before the write loop, `pre` encodes the text of every module in the requested encoding
+(`(custom_file_header or header.format(filename)).encode(encoding)`, `(body or "").encode(encoding)`
+in a loop over the same dict as the write loop, repair 499b7f3 of D17) … -/
+theorem encode_check_precedes_writes : hasEncodeCheck pre = true := by decide
 
-/-- PARTIAL, for every file-system state, every fault oracle (any subset of the may-raise steps
-failing, in any iteration) and every list of modules: if every text is encodable in the requested
-encoding (and the OS calls succeed — the model's `mkdir/open/close` do not fail), a failed run
-leaves every file exactly as it was. -/
-theorem failed_run_fs_unchanged (env : Env) (f : Faults) (st st' : St) (henc : EncodableAll env)
+/-- … and every expression the write loop prints is one of the expressions checked there
+(up to `.rstrip()` / `or ""`, normalised by the translator). -/
+theorem printed_text_is_checked : encodeGuardsWrites pre loopBody = true := by decide
+
+/-- FULL STRENGTH, for every file-system state, every list of modules with ANY texts (encodable
+or not), every fault oracle (any subset of the may-raise steps failing, the encode check
+included): a failed run leaves every file exactly as it was. What remains outside is an
+OS-level failure of `mkdir` / `open` / `write` / `close` (they do not fail in the model). -/
+theorem failed_run_fs_unchanged (env : Env) (f : Faults) (st st' : St)
     (h : run env f pre loopBody post st = .failed st') : st'.files = st.files :=
-  failed_run_files env f pre loopBody post raises_before_first_write henc st st' h
+  failed_run_files_checked env f pre loopBody post raises_before_first_write encode_check_precedes_writes st st' h
 
-/-- witness environment: one module `out.py` with existing content, the new text is not encodable -/
+/-- witness environment of the former defect D17: one module `out.py` with existing content,
+the new text is not encodable -/
 def d17Env : Env := ⟨["out.py"], [([], ['é'])], fun _ => false, chdirSome⟩
 def noFaults : Faults := ⟨fun _ => false, fun _ _ => false, fun _ => false⟩
 def d17Before : St := ⟨[(["out.py"], "old".toList)], .orig⟩
 
-/-- non-vacuity of the partial theorem: a run that fails (the parser raises) on an encodable input -/
+/-- non-vacuity: a run that fails because the parser raises … -/
 example : run { d17Env with encodable := fun _ => true }
     ⟨fun i => pre[i]?.map (·.what) == some "parser.parse", fun _ _ => false, fun _ => false⟩
     pre loopBody post d17Before = .failed d17Before := by decide
 
-/-- REFUTATION of the full statement = known defect D17: with `encoding="ascii"` and non-ASCII
-text the `print(..., file=file)` step raises *after* `path.open("wt")` has truncated the file:
-the run fails and the previous content is gone. -/
-theorem encode_error_truncates :
-    run d17Env noFaults pre loopBody post d17Before = .failed ⟨[(["out.py"], [])], .orig⟩ := by decide
-
-theorem failed_run_fs_unchanged_false : ¬ FailedRunFsUnchanged := by
-  intro h
-  have := h d17Env noFaults d17Before _ encode_error_truncates
-  exact absurd this (by decide)
+/-- … and the former D17 witness (`encoding="ascii"`, non-ASCII text, existing `out.py`): the run
+now fails at the encode check, with the old content intact. -/
+theorem encode_error_fails_before_open :
+    run d17Env noFaults pre loopBody post d17Before = .failed d17Before := by decide
 
 /-! ### working directory -/
 
